@@ -71,6 +71,7 @@ def run(ctx):
                     "independently written formulation; duality certificate)",
                     "scipy/HiGHS as the independent solver (search/audit only)"]
     ctx.assumptions += ["admissible inputs (waste in [0,100), positive need)", "N >= 1 for the objective statements"]
+    ctx.regen(["gen_optimizer_consts"])     # literals of optimizer.py the model repeats (theorem c02_literals_from_source)
     ctx.check_props()
     ok, bad, out = ctx.build(["Model/LPCheck.vo"])
     nsyn = 25 if ctx.quick else 300
